@@ -380,21 +380,31 @@ def expectation(case):
             if oi in creators:
                 later = [(si, a) for si, a in users[oi] if si > creators[oi][0]]
                 if later:
-                    us = [(creators[oi][0], "whole")] + later
-                    reasons.append(("shared_tmp", k, "+".join(sorted(sites[si]["k"] for si, _ in us)), "whole"))
+                    # signature: kinds of the consuming sites (the creating site can be any context)
+                    reasons.append(("shared_tmp", k, "+".join(sorted({sites[si]["k"] for si, _ in later})), "any"))
             continue
         if k != "tmp" and len(writers[oi]) > 1:
             reasons.append(("multi_writer", k, "+".join(sorted(sites[si]["k"] for si, _ in writers[oi])),
                             "+".join(sorted({a for _, a in writers[oi]}))))
         if k == "in" and writers[oi]:
             reasons.append(("input_written", k, "+".join(sorted({sites[si]["k"] for si, _ in writers[oi]})),
-                            "+".join(sorted({a for _, a in writers[oi]}))))
+                            "any"))
         if k == "var" and len(users[oi]) > 1:
             reasons.append(("shared_" + k, k, "+".join(sorted(sites[si]["k"] for si, _ in users[oi])),
                             "+".join(sorted({a for _, a in users[oi]}))))
     touched = max((len(u) for u in users.values()), default=0)
+    # situations the spec oracle does not decide but which matter for the text oracle
+    same_ctx_double = False
+    var_in_always = False
+    for s in sites:
+        if s["k"] == "always":
+            wa = {oi for oi, rw, _ in s["acts"] if "w" in rw and objs[oi]["k"] != "tmp"}
+            wb = {oi for oi, rw, _ in s.get("body", []) if "w" in rw and objs[oi]["k"] != "tmp"}
+            same_ctx_double |= bool(wa & wb)
+            var_in_always |= any(objs[oi]["k"] == "var" for oi, _, _ in s["acts"])
     return {"must_reject": bool(reasons), "reasons": reasons, "max_sites_per_obj": touched,
-            "max_writers": max((len(x) for x in writers.values()), default=0)}
+            "max_writers": max((len(x) for x in writers.values()), default=0),
+            "same_ctx_double": same_ctx_double, "var_in_always": var_in_always}
 
 
 # ------------------------------------------------------------------------------------------ check
@@ -427,7 +437,7 @@ def check(case):
         out.status = "must_reject_but_accepted"
         out.nontrivial = True
         for why, ok, sk, ak in exp["reasons"]:
-            out.add({"kind": "must_reject_accepted", "why": why, "obj": ok, "sites": sk, "acc": ak},
+            out.add({"kind": "must_reject_accepted", "why": why, "obj": ok, "sites": sk},
                     f"spec requires rejection ({why}: {ok} at sites {sk}, accessors {ak}) but cohdl emitted VHDL\n" + _excerpt(vhdl))
     elif exp["max_sites_per_obj"] >= 2:
         out.nontrivial = True
@@ -439,6 +449,8 @@ def check(case):
         return out
     site_kinds = "+".join(sorted({s["k"] for s in case["sites"]}))
     other = 0
+    spec_drv = "must_reject" if exp["must_reject"] else "always+body" if exp["same_ctx_double"] else "none"
+    spec_var = "var_in_always" if exp["var_in_always"] else ("must_reject" if exp["must_reject"] else "none")
     proc_vars = {}
     for ei in d.entities.values():
         if ei.arch is not None:
@@ -451,14 +463,14 @@ def check(case):
             if e.extra.get("same_concurrent_block"):
                 out.labels.append("same_block_double_write")
                 continue
-            out.add({"kind": "text", "rule": "S-driver", "drivers": e.extra.get("kinds"), "obj": e.extra.get("obj")},
+            out.add({"kind": "text", "rule": "S-driver", "drivers": e.extra.get("kinds"), "spec": spec_drv},
                     f"{e!r}\nsites in the spec: {site_kinds}\n" + _excerpt(vhdl))
         elif e.rule == "S-unres" and e.extra.get("name") == "variable-outside-process":
-            out.add({"kind": "text", "rule": "variable-outside-process", "var": "arch"}, f"{e!r}\n" + _excerpt(vhdl))
+            out.add({"kind": "text", "rule": "variable-outside-process", "var": "arch", "spec": spec_var}, f"{e!r}\n" + _excerpt(vhdl))
         elif e.rule == "S-unres" and (_m := _re.search(r"name (\S+) (?:in sensitivity list )?is not declared", e.msg)) \
                 and _m.group(1).lower() in proc_vars:
             # the name is declared, but as a variable inside a process, and is referenced outside that process
-            out.add({"kind": "text", "rule": "variable-outside-process", "var": "process"},
+            out.add({"kind": "text", "rule": "variable-outside-process", "var": "process", "spec": spec_var},
                     f"{e!r}  ({_m.group(1)} is a variable of process {proc_vars[_m.group(1).lower()]})\n" + _excerpt(vhdl))
         else:
             other += 1
@@ -480,13 +492,13 @@ def check(case):
                 else:
                     units.add(("process", p.label, p.line))
             if len(units) > 1:
-                out.add({"kind": "text", "rule": "root-multi-unit", "units": "+".join(sorted({u[0] for u in units})), "obj": obj.cls},
+                out.add({"kind": "text", "rule": "root-multi-unit", "units": "+".join(sorted(u[0] for u in units)), "spec": spec_drv},
                         f"signal {obj.raw} of {ei.raw} is driven by {len(units)} units: {sorted(map(str, units))}\n" + _excerpt(vhdl))
     if out.findings and out.status == "ok":
-        out.status = "driver_conflict_in_text"
+        out.status = "conflict_in_text"
     return out
 
 
 def _excerpt(vhdl):
-    i = vhdl.rfind("architecture ")
+    i = vhdl.rfind("\narchitecture ")
     return vhdl[i:][:2500]
